@@ -251,3 +251,8 @@ class PyDictT(Type):
             out[k] = v
             wf += w
         return out, wf
+
+
+def idiv(x, k):
+    """floor division by a positive constant for python ints and z3 ints alike (for result-shape lambdas)"""
+    return x // k if isinstance(x, int) else x / k
